@@ -2,7 +2,7 @@
     Statements are in VekProofs.C15_spec; programs are regenerated from /repo by symx. *)
 From VekLib Require Import Ops ROps LinAlg RLin.
 From VekModel Require Import PolyLen BezierSearch.
-Require Import QArith.
+Require Import QArith Reals Lra.
 Require Import NArith List.
 From VekProofs Require Import C15_spec C15_pa C15_pb C15_pd C15_pf C15_pg C15_ph C15_pi.
 
@@ -26,6 +26,15 @@ Theorem C15_search_loop : forall fuel curve p samples h eps s',
   (dd s' <= BezierSearch.dist2 (ev curve 1) p)%Q /\ (forall tx, In tx samples -> (dd s' <= BezierSearch.dist2 (snd tx) p)%Q) /\
   dd_ok p s' /\ ((forall tx, In tx samples -> snd tx = ev curve (fst tx)) -> on_curve curve s').
 Proof. exact search_spec. Qed.
+
+(** the optimality hypotheses are satisfiable: a cubic with a genuinely quadratic derivative and two distinct roots,
+    coordinates 0, 3, -3, 0 and epsilon 1/1000 *)
+Example C15_clean_example :
+  let P := C15_spec.pts 1 (fun i => match i with O => 0%R | S O => 3%R | S (S O) => (-3)%R | _ => 0%R end) in
+  cclean (1 / 1000)%R P 0 /\ ca P 0 <> 0%R /\ (0 < cdisc P 0)%R.
+Proof.
+  cbv [cclean clean ca cb cc cdisc C15_spec.pts Nat.mul Nat.add]. repeat split; try (right; unfold Rabs; destruct (Rcase_abs _); lra); lra.
+Qed.
 
 Print Assumptions C15_search_loop.
 Print Assumptions C15_loop_segments.
